@@ -122,6 +122,7 @@ pub fn build_live(family: &str, rng: &mut Rng, tier: u32) -> Option<LiveBuilt> {
         "paniccq" => Some(live_panic::build_cq(rng, tier)),
         "panicrw" => Some(live_panic::build_rw(rng, tier)),
         "panichand" => Some(live_panic::build_hand(rng, tier)),
+        "scopecatch" => Some(live_panic::build_catch(rng, tier)),
         _ => None,
     }
 }
